@@ -613,7 +613,13 @@ define_function(to_number)
 
 define_function(yr_math_abs)
 {
-  return_integer(llabs(integer_argument(1)));
+  int64_t value = integer_argument(1);
+
+  // The absolute value of INT64_MIN can't be represented.
+  if (value == INT64_MIN)
+    return_integer(YR_UNDEFINED);
+
+  return_integer(llabs(value));
 }
 
 define_function(count_range)
